@@ -9,8 +9,9 @@
  *
  *   C01.blocks.size_word    data block: extra[index] = on-disk size, bit 24
  *                           set iff the block went out uncompressed
- *   C01.blocks.sparse_zero  sparse block: extra[index] = 0, the inode is
- *                           extended and its sparse counter grew by the size
+ *   C01.blocks.sparse_zero  sparse block: extra[index] = 0 and the inode's
+ *                           sparse counter (0 for a basic inode) grew by the
+ *                           size (.counter)
  *   C01.blocks.start        LAST_BLOCK: the inode's block start = the location
  *                           the writer reported
  *   C01.blocks.frag_entry   fragment block: fragment table entry `index` =
@@ -147,10 +148,11 @@ void harness(void)
 
 		if (flags & SQFS_BLK_IS_SPARSE) {
 			touched = true;
-			VERIF_ASSERT(g_ino.words[idx] == 0 &&
-				     g_ino.n.base.type == SQFS_INODE_EXT_FILE &&
-				     g_ino.n.data.file_ext.sparse == sparse0 + size,
-				     "C01.blocks.sparse_zero");
+			VERIF_ASSERT(g_ino.words[idx] == 0, "C01.blocks.sparse_zero");
+			/* a basic inode says "no sparse bytes" */
+			VERIF_ASSERT((g_ino.n.base.type == SQFS_INODE_EXT_FILE ?
+				      g_ino.n.data.file_ext.sparse : 0) == sparse0 + size,
+				     "C01.blocks.sparse_zero.counter");
 			VERIF_COVER(!ext);
 		} else if (size != 0 && !(flags & SQFS_BLK_FRAGMENT_BLOCK)) {
 			touched = true;
